@@ -80,6 +80,7 @@ def run(run):
             check_case(run, fcp, sch, name, v, text, sig)
         del fcp, res
     CC.address_reuse_history(run, lambda fcp, sch, name, v, text, sig: check_case(run, fcp, sch, name, v, text, sig), run.pick(120, 1200))
+    CC.edited_schema_history(run, lambda fcp, sch, name, v, text, sig: check_case(run, fcp, sch, name, v, text, sig), run.pick(20, 200))
     reach.stop()
     run.extra["reach"] = reach.summary(40)
 
